@@ -23,7 +23,7 @@ ASSUMPTIONS = [
   'OpenMetrics renderings the parser rejects (e.g. a { inside a value) are outside the comparison, as the design states',
   'the particular tag order chosen by the normal form is not prescribed',
 ]
-SIGNATURES = ()
+SIGNATURES = ('name-tag-only-on-openmetrics-shaped-name',)
 
 TOK = ['a', 'b', 'cpu', 'x1', '{', '}', '"', '"}', '="', '",', ',', '\\', '\\\\', '\\"', '~', '!', '^', '=', '.', '-', 'é', '日',
        ' ', '{k="v"}', '{b="', 'k="v"', '"}{', ':', '/', '#', "'"]
@@ -41,7 +41,7 @@ NAME_TOK = [t for t in TOK if ';' not in t]
 @st.composite
 def valid_series(draw):
   name = draw(text_from(NAME_TOK))
-  keys = draw(st.lists(text_from(KEY_TOK, 1, 2), unique=True, max_size=4))
+  keys = draw(st.lists(st.one_of(text_from(KEY_TOK, 1, 2), text_from(KEY_TOK, 1, 2), st.just('name')), unique=True, max_size=4))
   tags = []
   for k in keys:
     v = draw(text_from(VAL_TOK, 1, 3))
@@ -168,6 +168,12 @@ def execute(ctx, case):
     return
   NN, ok2 = normalise(b, N)
   if NN != N:
+    if tags and not want_tags and looks_openmetrics(name):
+      # the only tag is an explicit name tag (which normalisation drops) and the metric name itself is
+      # OpenMetrics-shaped: the normal form is a bare OpenMetrics string
+      ctx.fail('name-tag-only-on-openmetrics-shaped-name', 'N(%r) = %r but N(N) = %r' % (x0, N, NN), case, 'idempotent')
+      ctx.note(case, nontrivial=False, classes=['known finding: name-tag-only on openmetrics-shaped name'])
+      return
     ctx.fail('C18:not-idempotent', 'N(%r) = %r but N(N) = %r' % (x0, N, NN), case, 'idempotent')
     return
   plain_carbon = not (len(tags) == 0 and looks_openmetrics(x0))
